@@ -3,6 +3,7 @@ package main
 // C05: generated CRUD statements agree with the schema.
 
 import (
+	"go/parser"
 	"fmt"
 	"go/ast"
 	"go/constant"
@@ -17,7 +18,7 @@ func init() { register("C05", "other", checkC05) }
 
 func checkC05(w *World, r *Result) {
 	r.Explanation = "Decides the structural clauses the property names: AGR-C05a in newColumnsCode the per-column lists fall into two groups (all columns / without the primary key) and within a group every list grows once per iteration in the same block (equal lengths, aligned positions); guards are skipped first; AGR-C05b every placeholder appended to a list X is `$len(X)+1` (numbered 1..n without gap); AGR-C05e the index compared with Table.Primary() is the range index over ta.Columns itself (the slice Primary() indexes); columnsCount is the length of the full group; TPL-C05c in every statement of the CRUD templates the column list, the placeholder list and the Go argument list come from the same group, SELECT/RETURNING lists are the full group (what the scan destinations expect), the UPDATE id placeholder is columnsCount and its argument follows the values, and statements with literal placeholders carry exactly $1..$n and n arguments; helper comparisons number i+1 over the same columns their argument names come from; AGR-C05d every table position is filled by SQLTableName and every column position by the Go field name (lower-cased in CRUD), never by the JSON name; AGR-C08f/AGR-C08t foreign-key detection shared with the DDL (rules shared with C08); TPL-1 the templates parse as Go. Does not decide: that statements execute without SQL error or the map-model behaviour over histories (needs a database)."
-	r.Rules = []string{"AGR-C05a", "AGR-C05b", "AGR-C05e", "TPL-C05c", "AGR-C05d", "AGR-C08f", "AGR-C08t", "AGR-C05k", "TPL-C05p", "TPL-1", "ALIAS-APPEND", "PRINTF", "MUT-AN"}
+	r.Rules = []string{"AGR-C05a", "AGR-C05b", "AGR-C05e", "TPL-C05c", "AGR-C05d", "AGR-C08f", "AGR-C08t", "AGR-C05k", "TPL-C05p", "TPL-C05s", "RE-C16", "TPL-1", "ALIAS-APPEND", "PRINTF", "MUT-AN"}
 	mutAnRule(w, r, func(rel string) bool { return rel == "generator/go/sqlcrud" })
 	printfRule(w, r, "generator/go/sqlcrud")
 	aliasAppendRule(w, r, func(rel string) bool { return rel == "analysis/sql" || rel == "generator/go/sqlcrud" || rel == "generator" })
@@ -37,6 +38,13 @@ func checkC05(w *World, r *Result) {
 		r.add(o)
 	}
 	checkCompositeLockstep(w, r)
+	checkScanLoops(w, r)
+	// the table-name replacer used for custom queries (rule shared with C16)
+	subRe := &Result{}
+	checkRegexFacts(w, subRe)
+	for _, o := range subRe.Obs {
+		r.add(o)
+	}
 	if checkAndJoinedFragments(w, r, "generator/go/sqlcrud") < 2 {
 		Undecided("TPL-C05p: fewer AND-joined fragments than confirmed by hand")
 	}
@@ -688,4 +696,89 @@ func checkAndJoinedFragments(w *World, r *Result, rel string) int {
 		}
 	}
 	return n
+}
+
+// checkScanLoops (TPL-C05s): the generated `Scan<T>s` functions read one row per iteration into a FRESH value (the
+// result of scanOne<T>, which declares its own `var item`). Scanning every row into one variable declared outside
+// the loop makes the rows share what the scanners of jsonb columns fill in place (maps accumulate the keys of
+// earlier rows, slices alias one another). Query on the instantiated templates of sqlcrud: inside every
+// `for rs.Next()` loop no `rs.Scan(&x…)` targets a variable declared outside the loop.
+func checkScanLoops(w *World, r *Result) {
+	nloops := 0
+	for _, d := range extractDecls(w, "generator/go/sqlcrud") {
+		if why, bad := hasUnknown(d.content); bad {
+			Undecided("sqlcrud template in %s has an unclassified hole: %s", d.label, why)
+		}
+		reported := false
+		for _, in := range instances(d.content, 1) {
+			fset := token.NewFileSet()
+			f, err := parser.ParseFile(fset, "gen.go", goSource(in.text), parser.SkipObjectResolution)
+			if err != nil {
+				continue // TPL-1 reports it
+			}
+			ast.Inspect(f, func(x ast.Node) bool {
+				loop, ok := x.(*ast.ForStmt)
+				if !ok || loop.Cond == nil || !strings.HasSuffix(es(loop.Cond), ".Next()") {
+					return true
+				}
+				nloops++
+				// variables declared inside the loop body
+				local := map[string]bool{}
+				ast.Inspect(loop.Body, func(y ast.Node) bool {
+					switch v := y.(type) {
+					case *ast.AssignStmt:
+						if v.Tok == token.DEFINE {
+							for _, l := range v.Lhs {
+								if id, ok := l.(*ast.Ident); ok {
+									local[id.Name] = true
+								}
+							}
+						}
+					case *ast.ValueSpec:
+						for _, nm := range v.Names {
+							local[nm.Name] = true
+						}
+					}
+					return true
+				})
+				ast.Inspect(loop.Body, func(y ast.Node) bool {
+					call, ok := y.(*ast.CallExpr)
+					if !ok {
+						return true
+					}
+					sel, ok := call.Fun.(*ast.SelectorExpr)
+					if !ok || sel.Sel.Name != "Scan" {
+						return true
+					}
+					for _, a := range call.Args {
+						u, ok := a.(*ast.UnaryExpr)
+						if !ok || u.Op != token.AND {
+							continue
+						}
+						root := u.X
+						for {
+							if s2, ok := root.(*ast.SelectorExpr); ok {
+								root = s2.X
+								continue
+							}
+							break
+						}
+						if id, ok := root.(*ast.Ident); ok && !local[id.Name] && !reported {
+							reported = true
+							r.bad("TPL-C05s", d.label, "row loop scans into "+id.Name, w.Pos(d.pos), "inside `for rs.Next()` the generated code scans every row into `"+id.Name+"`, declared outside the loop: the rows share what the jsonb scanners fill in place (maps keep the keys of earlier rows, slices alias), so a select no longer returns what was inserted")
+						}
+					}
+					return true
+				})
+				return true
+			})
+		}
+		if !reported {
+			// recorded once per template below
+		}
+	}
+	if nloops < 2 {
+		Undecided("TPL-C05s: fewer row loops than confirmed by hand in the sqlcrud templates (%d)", nloops)
+	}
+	r.ok("TPL-C05s", "generator/go/sqlcrud.<templates>", "row loops read into a fresh value", "generator/go/sqlcrud", fmt.Sprintf("%d `for rs.Next()` loops of the instantiated templates: none scans into a variable declared outside the loop", nloops), true)
 }
